@@ -111,6 +111,56 @@ def update_closure(mir, suffix, callee, gidx, after_terms=None):
     return ok and n > 0, why, n
 
 
+def crate_wide_stores(mir, cc_idx, gidx):
+    """every assignment to MachineState.cc / .global_clock in the whole dump, classified by its right-hand side:
+    cc := <the clock as read> (capture), cc := <value> as usize (restore from a saved cell), clock := clock + 1;
+    anything else is reported."""
+    caps = rest = incs = 0
+    bad = []
+    fn = ""
+    L = mir.lines
+    pat_cc = re.compile(r"^\s*\(.*\.%d: usize\) = (.*);$" % cc_idx)
+    pat_g = re.compile(r"^\s*\(.*\.%d: usize\) = (.*);$" % gidx)
+
+    def definition(i, local):
+        for j in range(i - 1, max(i - 40, 0), -1):
+            if L[j].startswith("fn "):
+                break
+            m = re.match(r"\s*%s = (.*);$" % re.escape(local), L[j])
+            if m:
+                return m.group(1)
+        return None
+    for i, l in enumerate(L):
+        if l.startswith("fn "):
+            fn = l[3:100]
+            continue
+        if "MachineState" not in l and "(*_1)." not in l and "(*_" not in l:
+            continue
+        m = pat_cc.match(l)
+        if m and ("MachineState).%d" % cc_idx in l or re.search(r"machine_state(_impl)?::|dispatch::", fn)) and \
+                "machine_state::MachineState {" not in l:
+            rhs = m.group(1)
+            if re.match(r"(move|copy) _\d+ as usize \(IntToInt\)$", rhs):
+                rest += 1
+            else:
+                m2 = re.match(r"(?:move|copy) (_\d+)$", rhs)
+                d = definition(i, m2.group(1)) if m2 else None
+                if d and re.match(r"copy \(.*\.%d: usize\)$" % gidx, d):
+                    caps += 1
+                elif "MachineState).%d" % cc_idx in l:
+                    bad.append("cc := %s in %s" % (rhs if not d else d, fn[:60]))
+        m = pat_g.match(l)
+        if m and ("MachineState).%d" % gidx in l or "loader" in fn or "compile" in fn):
+            rhs = m.group(1)
+            m2 = re.match(r"move \((_\d+)\.0: usize\)$", rhs)
+            d = definition(i, m2.group(1)) if m2 else None
+            if d and re.match(r"AddWithOverflow\(copy \(.*\.%d: usize\), const 1_usize\)$" % gidx, d):
+                incs += 1
+            elif re.search(r"\.%d: usize\) = " % gidx, l) and ("machine_st" in "".join(L[max(i - 6, 0):i]) or "MachineState)" in l):
+                bad.append("global_clock := %s in %s" % (rhs if not d else d, fn[:60]))
+    return caps, rest, incs, bad
+
+
 def run(thorough=False):
     structural, queries, meta = [], [], []
     try:
@@ -198,6 +248,12 @@ def run(thorough=False):
                                 okE, whyE = False, "%s: birth is %s" % (name[-40:], util.term_str(b)[:60])
         structural.append({"obligation": "code generator: every dynamic clause head it builds is born (the settings' "
                            "tick, Death::Infinity) (%d aggregates)" % nE, "ok": (okE if nE > 0 else None), "why": whyE})
+        cc_idx = util.struct_field_index("src/machine/machine_state.rs", "MachineState", "cc")
+        caps, rest, incs, badw = crate_wide_stores(mir, cc_idx, gidx)
+        structural.append({"obligation": "crate-wide: every store to cc is the clock as read (%d captures) or a saved "
+                           "generation read back (%d restores); every store to the clock is clock := clock + 1 (%d), so "
+                           "a later call captures a generation >= clock'" % (caps, rest, incs),
+                           "ok": (not badw) if (caps and incs >= 2) else None, "why": "; ".join(badw[:3])})
         # composition (z3): g = clock at the update; birth = g (A), clock' = g + 1 (B); death = Finite(g) (C), clock' (D)
         hdr = ("(declare-const g (_ BitVec 64))\n(declare-const cc (_ BitVec 64))\n(declare-const birth0 (_ BitVec 64))\n"
                "(declare-const dinf Bool)\n(declare-const d (_ BitVec 64))\n"
